@@ -446,6 +446,25 @@ scanFn:
 	}
 	if s := findScanner(c, "R20.5", lp); s != nil {
 		fn := c.SSAFunc(lp, s.nextFn)
+		// a scan function that hands back a state instead of a token leaves the token to its caller: the rule is about the
+		// function that returns the token
+		if fn != nil && (fn.Signature.Results().Len() == 0 || !typeIs(fn.Signature.Results().At(0).Type(), "lexer", "Token")) {
+			var caller *ssa.Function
+			for _, cand := range allFuncsOfPkg(fn.Pkg) {
+				if cand.Signature.Results().Len() >= 2 && typeIs(cand.Signature.Results().At(0).Type(), "lexer", "Token") {
+					allCalls(cand, func(call ssa.CallInstruction) {
+						if call.Common().StaticCallee() == fn {
+							caller = cand
+						}
+					})
+				}
+			}
+			if caller == nil {
+				c.Undecided("R20.5", "the scan function returns the zero token together with an error", s.nextFn.Pos(), "the function that turns the scanner's result into a token was not found")
+				return
+			}
+			fn = caller
+		}
 		okZero, n := true, 0
 		for _, b := range fn.Blocks {
 			ret, ok := b.Instrs[len(b.Instrs)-1].(*ssa.Return)
